@@ -11,8 +11,9 @@ type chanCore struct {
 	cap    int
 	n      int // buffered elements
 	closed bool
-	ticks  int  // virtual ticker: remaining ticks
-	ticker bool // virtual ticker channel
+	ticks  int         // virtual ticker: remaining ticks
+	ticker bool        // virtual ticker channel
+	ext    func() bool // external channel (see External): is there something to receive right now?
 }
 
 // Chan replaces `chan T` in instrumented code.
@@ -20,7 +21,11 @@ type Chan[T any] struct {
 	core chanCore
 	buf  []T
 	real chan T
-	ro   <-chan T // Free mode, receive-only source (real ticker)
+	ro   <-chan T // Free mode, receive-only source (real ticker); External: the wrapped channel in both modes
+	// External, Controlled mode: what a readiness probe has taken out of the real channel and not yet handed on
+	extV    T
+	extOK   bool
+	extHave bool
 }
 
 // MakeChan replaces make(chan T, n).
@@ -89,6 +94,9 @@ func (cc *chanCore) canRecv(t *Thread) bool {
 	if cc.ticker {
 		return cc.ticks > 0
 	}
+	if cc.ext != nil {
+		return cc.ext()
+	}
 	if t != nil && t.pend.handed == cc {
 		return true
 	}
@@ -136,6 +144,16 @@ func (c *Chan[T]) doRecv() (T, bool) {
 		cc.ticks--
 		var x interface{} = Now()
 		return x.(T), true
+	}
+	if cc.ext != nil {
+		if !c.extHave {
+			cc.ext()
+		}
+		v, ok := c.extV, c.extOK
+		if ok {
+			c.extHave = false // a value is handed on once; "closed" stays
+		}
+		return v, ok
 	}
 	if t.pend.handed == cc {
 		v := t.pend.handVal.(T)
@@ -557,4 +575,36 @@ func (c *Chan[T]) DrainTo(keep int) int {
 		c.core.n--
 	}
 	return c.core.n
+}
+
+// External wraps a channel that comes from outside the instrumented code (context.Done(), a notification channel of
+// a library that is not rewritten) so that receiving from it - alone or in a select - is a scheduling point. In
+// Controlled mode the real channel is probed without blocking whenever the scheduler asks whether the receive can
+// proceed; a value taken out by a probe is kept for the receive. What happens inside the other package (who closes
+// or sends, and when) is not modelled: only its effect on this channel is seen, at the points where it is asked for.
+func External[T any](ch <-chan T) *Chan[T] {
+	if ch == nil {
+		return nil
+	}
+	c := &Chan[T]{ro: ch}
+	if mode != Controlled {
+		return c
+	}
+	if !sc.dead {
+		c.core.obj.Fresh()
+	}
+	c.core.cap = 1
+	c.core.ext = func() bool {
+		if c.extHave {
+			return true
+		}
+		select {
+		case v, ok := <-ch:
+			c.extV, c.extOK, c.extHave = v, ok, true
+			return true
+		default:
+			return false
+		}
+	}
+	return c
 }
